@@ -145,7 +145,7 @@ func runFacts(args []string) {
 					ast.Inspect(st, func(m ast.Node) bool {
 						if c, ok := m.(*ast.CallExpr); ok {
 							name := callName(c.Fun)
-							for _, want := range []string{"saveSnap", "wal.Save", "ApplySnapshot", "publishSnapshot", "raftStorage.Append", "transport.Send",
+							for _, want := range []string{"saveSnap", "wal.Save", "ApplySnapshot", "wal.Sync", "publishSnapshot", "raftStorage.Append", "transport.Send",
 								"publishEntries", "maybeTriggerSnapshot", "Node.Advance"} {
 								if strings.HasSuffix(name, want) {
 									out.ReadyArm = append(out.ReadyArm, want)
